@@ -284,6 +284,29 @@ pub fn read(build_filename: &str) -> anyhow::Result<State> {
     })
 }
 
+/// Parse a single file's content; also returns defaults, pools and builddir.
+#[cfg(feature = "verif")]
+pub fn verif_parse(
+    name: &str,
+    mut content: Vec<u8>,
+) -> anyhow::Result<(
+    graph::Graph,
+    Vec<FileId>,
+    Vec<(String, usize)>,
+    Option<String>,
+)> {
+    content.push(0);
+    let mut loader = Loader::new();
+    let mut parser = parse::Parser::new(&content);
+    loader.parse_with_parser(&mut parser, PathBuf::from(name), &[])?;
+    Ok((
+        loader.graph,
+        loader.default,
+        loader.pools.iter().cloned().collect(),
+        loader.builddir,
+    ))
+}
+
 /// Parse a single file's content.
 #[cfg(test)]
 pub fn parse(name: &str, mut content: Vec<u8>) -> anyhow::Result<graph::Graph> {
